@@ -148,11 +148,11 @@ def audit(proof_modules):
     rc, out = run(["lake", "env", "lean", ax_file], cwd=LEAN, timeout=1800)
     used = set()
     per = {}
-    for mm in re.finditer(r"'([^']+)' depends on axioms: \[([^\]]*)\]", out):
+    for mm in re.finditer(r"'(\S+)' depends on axioms: \[([^\]]*)\]", out):
         axs = [a.strip() for a in mm.group(2).split(",") if a.strip()]
         per[mm.group(1)] = axs
         used.update(axs)
-    for mm in re.finditer(r"'([^']+)' does not depend on any axioms", out):
+    for mm in re.finditer(r"'(\S+)' does not depend on any axioms", out):
         per[mm.group(1)] = []
     if rc != 0:
         problems.append("axiom audit failed to run: %s" % out.strip()[:400])
@@ -557,7 +557,7 @@ PLANS = {
     "C10": dict(proofs=["Proofs.C10"], runs=[("c10", dict(quick=0, thorough=0))],
                 rule="every code point with a non-trivial case class in either source (quick: all below U+0250 and a quarter of the rest) x {i, iu, iv} x {literal, [c], [^c], (c)\\1} x every member of both classes; \\w \\W [\\w] [\\W] \\b for every such code point; non-trivial = c ≠ d equivalent",
                 technique="Lean 4 kernel evaluation over FOLDS / TO_UPPERCASE regenerated from the source vs ICU 78.2 snapshot, lifted to all code points; engine-level sweep of the same relation"),
-    "C01": dict(proofs=["Proofs.C01", "Proofs.Lower", "Proofs.LowerChain", "Proofs.ESTerm", "Proofs.RoundTrip", "Proofs.Keystone", "Proofs.Final"], custom="c01", runs=[("engine", dict(quick=30000, thorough=600000), ["--focus", "C01"]), ("lower", dict(quick=10000, thorough=200000))],
+    "C01": dict(proofs=["Proofs.C01", "Proofs.Lower", "Proofs.LowerChain", "Proofs.ESTerm", "Proofs.RoundTrip", "Proofs.Keystone", "Proofs.Final", "Proofs.DupNameRef"], custom="c01", runs=[("engine", dict(quick=30000, thorough=600000), ["--focus", "C01"]), ("lower", dict(quick=10000, thorough=200000))],
                 rule=ENGINE_RULE,
                 technique="Lean 4 ES2025 specification (laws proved) as executable oracle: spec-vs-implementation differential on generated ASTs"),
     "C04": dict(proofs=["Proofs.C04", "Proofs.C04Sem", "Proofs.EndToEnd", "Proofs.Final", "Proofs.ByteSearch"], runs=[("bytesearch", dict(quick=20000, thorough=500000)), ("engine", dict(quick=30000, thorough=1500000), ["--focus", "C04"]),
